@@ -11,7 +11,7 @@ package reftable
 
 // groups of bookkeeping ghosts (declared further down) for use in modifies clauses
 //@ ghostgroup yielded = noneYet, yRefSeq, yRefName, yRefIdx, yRefVal, yRefValLen, yRefTV, yRefTVLen, yRefTarget, yRefDel, wRefAtYield, refsDone, yLogSeq, yLogName, yLogIdx, yLogNew, yLogNewLen, yLogOld, yLogOldLen, yLogPName, yLogEmail, yLogTime, yLogTZ, yLogMsg, wLogAtYield, logsDone
-//@ ghostgroup pv = pvPrev, pvLast
+//@ ghostgroup pv = pvPrev, pvLast, pvPrevVal, pvLastVal
 //@ ghostgroup stream = itRef, itTab, itLo, itStrict
 //@ ghostgroup taken = wRefSeq, wRefName, wRefIdx, wRefVal, wRefValLen, wRefTV, wRefTVLen, wRefTarget, wLogSeq, wLogName, wLogIdx, wLogNew, wLogNewLen, wLogOld, wLogOldLen, wLogPName, wLogEmail, wLogTime, wLogTZ, wLogMsg
 
@@ -142,6 +142,8 @@ package reftable
 // ghost: the lengths returned by the last two putVarInt calls (lets encodeKey name where its two varints end)
 //@ ghost pvPrev int
 //@ ghost pvLast int
+//@ ghost pvPrevVal int
+//@ ghost pvLastVal int
 //@ func putVarInt
 //@   props C14 C01
 //@   results n, ok
@@ -149,6 +151,8 @@ package reftable
 //@   modifies buf[0:len(buf)]
 //@   sets pvPrev = pvLast
 //@   sets pvLast = n
+//@   sets pvPrevVal = pvLastVal
+//@   sets pvLastVal = old(val)
 //@   ensures[size] ok ==> 1 <= n && n <= 10 && n <= len(buf)
 //@   ensures !ok ==> n == 0
 //@   ensures[last-byte-ends] ok ==> buf[n-1] < 128
@@ -201,6 +205,9 @@ package reftable
 //@   ensures[g4] fits ==> vlen(buf) == pvPrev
 //@   ensures[g5] fits ==> vlen(buf[pvPrev:]) == pvLast
 //@   ensures[g6] fits ==> vval(buf) <= len(key) && n - pvPrev - pvLast == len(key) - vval(buf)
+//@   ensures[g7a] fits ==> vval(buf) == pvPrevVal
+//@   ensures[g7b] fits ==> vval(buf[pvPrev:]) == pvLastVal
+//@   ensures[g7c] fits && extra < 8 ==> pvLastVal == (n - pvPrev - pvLast) * 8 + extra
 //@   ensures[g7] fits && extra < 8 ==> vval(buf[pvPrev:]) == (n - pvPrev - pvLast) * 8 + extra
 //@   ensures[lv1] fits && extra < 8 ==> vlen(buf) >= 1 && vval(buf) <= len(prevKey) && vval(buf) <= len(key)
 //@   ensures[lv2] fits && extra < 8 ==> vlen(buf[vlen(buf):]) >= 1
